@@ -26,12 +26,12 @@ def pyMathName (f : String) : String :=
   (lookup f Generated.Precedence.numbaFunctionMap).getD f
 
 /-- `Formatter._dtype_to_name` of the numba formatter; `none` = `ValueError`.
-    INT and BOOL interpolate the *class objects* `np.int32` / `np.bool` into the f-string. -/
+    -/
 def pyTypeName (sc : Scalar) : DType → Option String
   | .scalar => some ("np." ++ sc.name)
   | .real => some ("np." ++ sc.real.name)
-  | .int => some "np.<class 'numpy.int32'>"
-  | .bool => some "np.<class 'numpy.bool'>"
+  | .int => some "np.int32"
+  | .bool => some "np.bool_"
   | .none => none
 
 /-- `str(complex)` as pieces: NUMBER tokens carry the `j` suffix -/
@@ -52,6 +52,11 @@ def pyNumber (e : Expr) : List Piece :=
 def dotted (parts : List String) : List Piece :=
   joinP [pp .dot] (parts.map (fun s => [Piece.t (.id s)]))
 
+/-- `isinstance(x, (EQ, NE, LT, GT, LE, GE))` -/
+def isCmpNode : Expr → Bool
+  | .bin op _ _ => op.isCompare
+  | _ => false
+
 def pyOpPieces : BinOp → List Piece
   | .and => [.t (.id "and")]
   | .or => [.t (.id "or")]
@@ -64,17 +69,19 @@ def piecesPy : Expr → List Piece
   | .litI v => pyNumber (.litI v)
   | .sym n _ => [.t (.id n)]
   | .mi _ _ gi => piecesPy gi
-  | .neg a => pp .minus :: parenIf (decide (a.prec ≥ 3)) (piecesPy a)
+  | .neg a => pp .minus :: parenIf (decide (precF a ≥ 3)) (piecesPy a)
   | .not a => [pp .lpar, .t (.id "not"), sp, pp .lpar] ++ piecesPy a ++ [pp .rpar, pp .rpar]
   | .bin op a b =>
-    parenIf (decide (a.prec ≥ op.prec)) (piecesPy a) ++ [sp] ++ pyOpPieces op ++ [sp]
-      ++ parenIf (decide (b.prec ≥ op.prec)) (piecesPy b)
+    parenIf (decide (precF a ≥ op.prec) || (op.isCompare && isCmpNode a)) (piecesPy a) ++ [sp] ++ pyOpPieces op ++ [sp]
+      ++ parenIf (decide (precF b ≥ op.prec) || (op.isCompare && isCmpNode b)) (piecesPy b)
   | .sum args => joinP [sp, pp .plus, sp] (piecesNaryPy 5 args)
   | .prod args => joinP [sp, pp .star, sp] (piecesNaryPy 4 args)
   | .call f _ args =>
     let fn := pyMathName f
-    if containsL "bessel_y".toList fn.toList then dotted ["scipy", "special", "yn"]
-    else if containsL "bessel_j".toList fn.toList then dotted ["scipy", "special", "jn"]
+    if containsL "bessel_y".toList fn.toList then
+      dotted ["scipy", "special", "yn"] ++ [pp .lpar] ++ joinP [pp .comma, sp] (piecesListPy args) ++ [pp .rpar]
+    else if containsL "bessel_j".toList fn.toList then
+      dotted ["scipy", "special", "jn"] ++ [pp .lpar] ++ joinP [pp .comma, sp] (piecesListPy args) ++ [pp .rpar]
     else if fn = "erf" then
       dotted ["math", "erf"] ++ [pp .lpar] ++ ((piecesListPy args).headD []) ++ [pp .rpar]
     else
@@ -82,12 +89,12 @@ def piecesPy : Expr → List Piece
   | .idx arr _ ix =>
     .t (.id arr) :: pp .lbrack :: joinP [pp .comma, sp] (piecesListPy ix) ++ [pp .rbrack]
   | .cond c t f =>
-    [pp .lpar] ++ parenIf (decide (t.prec ≥ 13)) (piecesPy t) ++ [sp, .t (.id "if"), sp]
-      ++ parenIf (decide (c.prec ≥ 13)) (piecesPy c) ++ [sp, .t (.id "else"), sp]
-      ++ parenIf (decide (f.prec ≥ 13)) (piecesPy f) ++ [pp .rpar]
+    [pp .lpar] ++ parenIf (decide (precF t ≥ 13)) (piecesPy t) ++ [sp, .t (.id "if"), sp]
+      ++ parenIf (decide (precF c ≥ 13)) (piecesPy c) ++ [sp, .t (.id "else"), sp]
+      ++ parenIf (decide (precF f ≥ 13)) (piecesPy f) ++ [pp .rpar]
 def piecesNaryPy (p : Nat) : List Expr → List (List Piece)
   | [] => []
-  | a :: as => parenIf (decide (a.prec ≥ p)) (piecesPy a) :: piecesNaryPy p as
+  | a :: as => parenIf (decide (precF a ≥ p)) (piecesPy a) :: piecesNaryPy p as
 def piecesListPy : List Expr → List (List Piece)
   | [] => []
   | a :: as => piecesPy a :: piecesListPy as
@@ -120,8 +127,9 @@ def tupleRepr (ns : List Nat) : List Char :=
 def indentAllLines (body : List Char) : List Char :=
   (splitLines [] body).flatMap (fun l => ' ' :: ' ' :: ' ' :: ' ' :: l ++ ['\n'])
 
-/-- `_format_comment_str` -/
-def pyComment (t : List Char) : List Char := ['#', ' '] ++ t ++ [' ', '\n']
+/-- `_format_comment_str`: every line of the text becomes a comment line -/
+def pyComment (t : List Char) : List Char :=
+  (splitLines [] t).flatMap (fun l => ['#', ' '] ++ l ++ [' ', '\n'])
 
 mutual
 /-- numba `Formatter.__call__` on statements; `none` = the Python raises -/
@@ -146,7 +154,8 @@ def fmtStmtPy (sc : Scalar) : Stmt → Option (List Char)
     | none => none
     | some b =>
       some (strL "for " ++ strL i ++ strL " in range(" ++ fmtExprPy lo ++ strL ", " ++ fmtExprPy hi
-        ++ strL "):\n" ++ indentAllLines b)
+        ++ strL "):\n" ++ indentAllLines b
+        ++ (if (splitLines [] b).all isBlankLine then strL "    pass\n" else []))
   | .comment t => some (pyComment (strL t))
   | .block ss => fmtStmtsPy sc ss
   | .sect name decls stmts inp out _ =>
@@ -203,7 +212,8 @@ def tokStmtPy (sc : Scalar) : Stmt → List Tok
   | .forRange i lo hi body =>
     let b := tokStmtsPy sc body
     [.id "for", .id i, .id "in", .id "range", .p .lpar] ++ tokExprPy lo ++ [.p .comma] ++ tokExprPy hi
-      ++ [.p .rpar, .p .colon, .newline] ++ (if b.isEmpty then [] else [.indent] ++ b ++ [.dedent])
+      ++ [.p .rpar, .p .colon, .newline]
+      ++ (if b.isEmpty then [.indent, .id "pass", .newline, .dedent] else [.indent] ++ b ++ [.dedent])
   | .comment _ => []
   | .block ss => tokStmtsPy sc ss
   | .sect _ decls stmts _ _ _ => tokStmtsPy sc decls ++ tokStmtsPy sc stmts
